@@ -63,9 +63,7 @@ Theorem C09_claims_after_sync_revision_claims :
           nth_error prs' m = Some p' ->
           exists p : prev,
             nth_error prs m = Some p /\
-            (forall ck : rck,
-             In ck (rev_children (pr_rev p')) ->
-             In ck (rev_children (pr_rev p)) /\ is_rolling c (ck_group ck) (ck_kind ck) = true)).
+            (forall k : claim_key, lists (pr_rev p') k = true -> lists (pr_rev p) k = true)).
 Proof. exact (@C09_claims_after_sync_revision_claims). Qed.
 Print Assumptions C09_claims_after_sync_revision_claims.
 
@@ -77,36 +75,30 @@ Theorem C09_first_claimant_wins :
 Proof. exact (@C09_first_claimant_wins). Qed.
 Print Assumptions C09_first_claimant_wins.
 
-Theorem C09_claims_not_exclusive :
-  let
-         '(prs', cl') := sync_revision_claims cx9_cfg cx9_ds 0 cx9_prs [] in
-          claimant cl' ("", "Thing", "a") = Some 0 /\
-          claimant cl' ("", "Thing", "b") = Some 1 /\
-          map (fun p : prev => rev_children (pr_rev p)) prs' =
-          [[{| ck_group := ""; ck_kind := "Thing"; ck_names := ["a"] |}];
-           [{| ck_group := ""; ck_kind := "Thing"; ck_names := ["a"; "b"] |}]] /\
-          count_listing prs' ("", "Thing", "a") = 2.
-Proof. exact (@C09_claims_not_exclusive). Qed.
-Print Assumptions C09_claims_not_exclusive.
+Theorem C09_claims_exclusive :
+  forall (c : ccfg) (ds : list (string * string * string * json)) (prs prs' : list prev) (cl' : claims),
+         sync_revision_claims c ds 0 prs [] = (prs', cl') ->
+         (forall k : claim_key, count_listing prs' k <= 1) /\
+         (forall (m : nat) (p' : prev) (g kd n : string),
+          nth_error prs' m = Some p' ->
+          lists (pr_rev p') (g, kd, n) = true ->
+          is_rolling c g kd = true /\ find_desired ds g kd n <> None /\ claimant cl' (g, kd, n) = Some m).
+Proof. exact (@C09_claims_exclusive). Qed.
+Print Assumptions C09_claims_exclusive.
 
-Theorem C09_stale_listing_survives_sync :
-  exists prs2 : list prev,
-           sync_rolling_update cx9_cfg "" cx9_observed cx9_prs = Some (prs2, RComplete) /\
-           map (fun p : prev => rev_children (pr_rev p)) (prune prs2) =
-           [[{| ck_group := ""; ck_kind := "Thing"; ck_names := ["a"; "b"] |}];
-            [{| ck_group := ""; ck_kind := "Thing"; ck_names := ["a"] |}]] /\
-           count_listing (prune prs2) ("", "Thing", "a") = 2.
-Proof. exact (@C09_stale_listing_survives_sync). Qed.
-Print Assumptions C09_stale_listing_survives_sync.
-
-Theorem C09_revision_names_unique_claim_partial :
+Theorem C09_revision_names_unique_claim :
   forall (c : ccfg) (pns : string) (observed : umap) (latest : prev) (rest prs2 : list prev)
            (st : rollout_state),
          sync_rolling_update c pns observed (latest :: rest) = Some (prs2, st) ->
-         let prs1 := fst (sync_revision_claims c (pr_desired latest) 0 (latest :: rest) []) in
-         all_simple prs1 = true ->
-         (forall k : claim_key, count_listing prs1 k <= 1) ->
-         forall k : claim_key, count_listing (prune prs2) k <= 1.
-Proof. exact (@C09_revision_names_unique_claim_partial). Qed.
-Print Assumptions C09_revision_names_unique_claim_partial.
+         all_gk_unique (latest :: rest) = true -> forall k : claim_key, count_listing (prune prs2) k <= 1.
+Proof. exact (@C09_revision_names_unique_claim). Qed.
+Print Assumptions C09_revision_names_unique_claim.
+
+Theorem C09_duplicate_group_counterexample :
+  all_gk_unique cx9_prs_d = false /\
+         (exists (prs2 : list prev) (st : rollout_state),
+            sync_rolling_update cx9_cfg "" cx9_observed cx9_prs_d = Some (prs2, st) /\
+            count_listing (prune prs2) ("", "Thing", "b") = 2).
+Proof. exact (@C09_duplicate_group_counterexample). Qed.
+Print Assumptions C09_duplicate_group_counterexample.
 
